@@ -122,6 +122,12 @@ impl<S: Scanner> System for IsoSys<S> {
         set_clock(0);
         IsoState { m: S::make(self.timeout), a: S::make(self.timeout), b: S::make(self.timeout), c: S::make(self.timeout), now: 0 }
     }
+    fn actions_at(&self, s: &IsoState<S>, depth: u32, out: &mut Vec<IAct>) {
+        self.actions(s, out);
+        if self.storm && depth <= STORM_DEPTH + 2 {
+            out.push(IAct::ResetStorm);
+        }
+    }
     fn actions(&self, _s: &IsoState<S>, out: &mut Vec<IAct>) {
         for slot in 0..3u8 {
             for &c in &self.ctrls {
@@ -133,9 +139,6 @@ impl<S: Scanner> System for IsoSys<S> {
             out.push(IAct::Sys(s, a, b));
         }
         out.push(IAct::Reset);
-        if self.storm {
-            out.push(IAct::ResetStorm);
-        }
         if S::POLLS {
             for p in [(1u64 << 32) - 2, 1 << 32] {
                 out.push(IAct::Pause(p));
